@@ -21,7 +21,7 @@ REQUIRED_COUNTERS = ["sessions", "close_injected", "state_samples_after_close", 
 SHARD_TIMEOUT = {"quick": 400, "thorough": 3000}
 
 SHAPES = ("plain", "refusing", "slow_transport", "fault_reconnect", "slow_receive_cb", "send", "after_close_calls",
-          "send_fault_read_silent", "send_write_error", "double_close", "double_connect", "never_connected")
+          "send_fault_read_silent", "send_write_error", "double_close", "double_connect", "never_connected", "callbacks_replaced")
 
 
 def shards(tier, seed):
@@ -54,7 +54,7 @@ def session(kind, shape, step, scb, bystander=False, cb_style="method"):
             sim.connect_script = [("refuse", errs[0], 0.01), ("refuse", errs[1], 0.3), ("refuse", errs[2], 0.01)]
         elif shape == "slow_transport":
             sim.connect_script = [("accept", 0.5)]
-        elif shape == "fault_reconnect":
+        elif shape in ("fault_reconnect", "callbacks_replaced"):
             sim.connect_script = [("accept", 0.001), ("refuse", errs[0], 0.01), ("accept", 0.2)]
 
         def on_accept(conn):
@@ -62,7 +62,7 @@ def session(kind, shape, step, scb, bystander=False, cb_style="method"):
                 if not conn.lost and not conn.closing:
                     conn.feed(packet(kind, 100 + conn.id) + packet(kind, 100 + conn.id, 1)[:6])
             loop.call_later(0.05, later)
-            if shape == "fault_reconnect" and conn.id == 0:
+            if shape in ("fault_reconnect", "callbacks_replaced") and conn.id == 0:
                 def fault():
                     if not conn.lost and not conn.closing:
                         conn.reset(simgw.serial_loss_exception() if kind == "waveshare" else ConnectionResetError(104, "reset"))
@@ -81,6 +81,9 @@ def session(kind, shape, step, scb, bystander=False, cb_style="method"):
             loop.call_later(0.1, look)
         sim.on_close_return.append(a_close_returned)
         loop.at_step(step, do_close)
+        if shape == "callbacks_replaced":
+            # new status / receive callbacks are registered while connected (before the fault at 0.12 s)
+            loop.call_later(0.08, sim.replace_callbacks)
         if shape != "never_connected":
             sim.spawn("connect")
         if shape == "double_connect":
@@ -174,6 +177,8 @@ def check(sim, stats, info, acc, kind, shape, step, scb):
     if info["open_after_a_close_returned"]:
         acc.violation("link-open-after-a-close-call-returned", f"{kind}/{shape}: 0.1 virtual s after a close() call returned (close issued at step {step}) connection(s) "
                       f"{info['open_after_a_close_returned'][0]} were still open", w)
+    if sim.old_cb_calls_after_replacement:
+        acc.violation("replaced-callback-still-called", f"{kind}/{shape}: {sim.old_cb_calls_after_replacement} call(s) went to a callback after the application had replaced it", w)
     # 3. no receive callback after close() returned
     if sim.recv_after_close_returned:
         acc.violation("receive-callback-after-close-returned", f"{kind}/{shape}: {sim.recv_after_close_returned} receive callback(s) after close() returned", w)
